@@ -195,6 +195,9 @@ def worker(ctx):
                     txt.insert(data.draw(st.integers(0, len(txt))), 0x20)
             base['text'] = txt
             base['ppm'] = data.draw(st.sampled_from([0.0, 0.0, 20.0, 1000.0, -15.0]))
+            if base['kind'] == 'spec' and data.draw(st.integers(0, 2)) == 0:
+                # "line end contextuals" (Silf flags bit 0): justify brackets the line with two marker slots of glyph lbGID
+                base['spec'] = dict(base['spec'], silf_flags=base['spec'].get('silf_flags', 0) | 1, lbgid=data.draw(st.integers(0, len(base['spec']['glyphs']) - 1)))
             bsel = data.draw(st.lists(st.integers(0, 999), max_size=4))
             jsel = data.draw(st.lists(st.tuples(st.integers(0, 999), st.integers(0, 6), st.integers(0, 3), st.booleans(), st.integers(0, 2), st.integers(0, 999), st.integers(0, 999)), max_size=8))
             opts = data.draw(st.sampled_from([0, 2, 6]))
